@@ -1,7 +1,250 @@
-from ..model import AnalysisError
+"""C18 - counters, time-averaged occupancy and cycle times are truthful (partial).
+
+  R1 in every store that keeps the statistic, after every *net* change of Σ_H|L| inside an atomic segment the
+     level updater runs before the segment ends (transfers between holding lists create no obligation);
+  R2 the level the updater (and the edges' update_final_*_avg_content) records is Σ_H|L|;
+  R3 the integral is advanced with the *previous* level over [last change, now] before level and stamp are refreshed;
+  R4 generated / processed / discarded / received counters are paired with the events they count (= C03.R2);
+  R5 the Sink adds `now − item.timestamp_creation` exactly once per received item;
+  R6 timestamp attributes of flow items are assigned only from `env.now`.
+"""
+from __future__ import annotations
+
+import ast
+
+from .. import lin, nodewalk, paths, storewalk, tables
+from ..model import AnalysisError, Project, self_attr, walk_no_nested
+from ..report import Result
+from ..tables import LEVEL_UPDATER, TRIGGERS, MUT
+from .common import site, src, sum_lin, status_str
+from . import c03
+
 PROP = 'C18'
 LEVEL = 'other'
 
+STAMP_ATTRS_PREFIX = ('timestamp_',)
+STAMP_ATTRS = {'conveyor_entry_time', 'conveyor_exit_time', 'fleet_entry_time', 'fleet_exit_time', 'conveyor_ready_item_entry_time', 'put_time'}
 
-def run(p, tier):
-    raise AnalysisError('rule module for C18 not implemented yet (fail closed)')
+
+def run(p: Project, tier: str) -> Result:
+    r = Result(PROP)
+    r.explanation = ('The occupancy integral is maintained correctly iff the updater runs after every net change of the number of held items '
+                     '(pairing rule), integrates the previous level and records Σ held; counters are paired with the transfers they count; '
+                     'cycle time and timestamps come from env.now. Numerical equality with the true integral is not decided.')
+    r.rule('C18.R1', 'level updater runs after every net occupancy change before the next suspension', 14)
+    r.rule('C18.R2', 'recorded level = Σ held (stores and edges)', 10)
+    r.rule('C18.R3', 'integral += previous level × (now − last change), before level and stamp are refreshed', 10)
+    r.rule('C18.R4', 'counters paired with creations / pushes / receptions', 8)
+    r.rule('C18.R5', 'Sink: total_cycle_time += now − timestamp_creation once per received item', 1)
+    r.rule('C18.R6', 'item timestamps are assigned only from env.now', 8)
+    r.not_decided = ['numerical equality with the time integral of the true occupancy', 'monotonicity of timestamps along a route',
+                     'the filter store keeps no occupancy statistic (nothing to check)']
+    ws = storewalk.walks(p, assume_inv=('I1',))
+    for w in ws:
+        r.paths += w.npaths
+        if w.store.has_level:
+            check_level_pairing(p, w, r)
+            check_updater(p, w.store.methods[LEVEL_UPDATER], 'self', w.store.holders, r, 'self.env.now')
+    for ci in tables.edge_classes(p):
+        attr, skeys = tables.edge_store_attr(p, ci)
+        st = [w.store for w in ws if w.store.ci.key == skeys[0]][0]
+        for name, fi in ci.methods.items():
+            if name.startswith('update_final_') and name.endswith('_avg_content'):
+                par = [a.arg for a in fi.node.args.args if a.arg != 'self']
+                check_updater(p, fi, f'self.{attr}', st.holders, r, par[0] if par else '?')
+    # R4
+    sub = Result('C18')
+    nws = nodewalk.walks(p)
+    for w in nws:
+        r.paths += w.npaths
+        for root, ps in w.roots.items():
+            c03.check_root(sub, w, root, w.root_funcs[root], ps, [], {})
+    for o in sub.obligations:
+        if o.rule == 'C03.R2':
+            if o.ok:
+                r.ok('C18.R4', o.construct, o.detail, o.file, o.line)
+    for f in sub.findings:
+        if f.rule == 'C03.R2':
+            r.fail('C18.R4', f.construct, f.message, f.file, f.line, f.path)
+    check_cycle_time(p, nws, r)
+    check_timestamps(p, r)
+    return r
+
+
+def check_level_pairing(p, w, r):
+    s = w.store
+    H = set(s.holders)
+    sites = {}
+    for root, ps in w.roots.items():
+        if root in TRIGGERS:
+            continue
+        for pa in ps:
+            if pa.raises:
+                continue
+            acc = 0
+            pending = []
+
+            def close(where):
+                nonlocal acc, pending
+                for e in pending:
+                    key = site(e.fi, e.node, f'level:{e.list}.{e.op}') + f'@{root}'
+                    rec = sites.setdefault(key, {'ok': True, 'e': e, 'pa': pa, 'why': ''})
+                    if acc != 0 and rec['ok']:
+                        rec.update(ok=False, pa=pa, why=f'the number of held items changes by {acc:+d} and {LEVEL_UPDATER}() does not run before {where}: '
+                                                          f'the time-averaged occupancy integrates a stale level')
+                acc = 0
+                pending = []
+            for e in pa.events:
+                if e.kind == 'op' and e.list in H:
+                    acc += MUT[e.op]
+                    pending.append(e)
+                elif e.kind == 'call' and e.name == LEVEL_UPDATER:
+                    # everything so far is accounted for
+                    for x in pending:
+                        key = site(x.fi, x.node, f'level:{x.list}.{x.op}') + f'@{root}'
+                        sites.setdefault(key, {'ok': True, 'e': x, 'pa': pa, 'why': ''})
+                    acc = 0
+                    pending = []
+                elif e.kind == 'yield':
+                    close(f'the yield at line {e.line}')
+            close(f'the end of {root}')
+    for key, rec in sorted(sites.items()):
+        e = rec['e']
+        if rec['ok']:
+            r.ok('C18.R1', key, 'level updated (or net change zero) before the segment ends', src(e.fi.module), e.line)
+        else:
+            r.fail('C18.R1', key, rec['why'], src(e.fi.module), e.line, rec['pa'].describe())
+
+
+def check_updater(p, fi, recv, holders, r, now_expr):
+    """Shape of an occupancy-integral update on the statistic fields of `recv`."""
+    r.analysed_functions.add(fi.key)
+    body = [n for n in fi.node.body if not (isinstance(n, ast.Expr) and isinstance(n.value, ast.Constant))]
+    pos = {}
+    level_val = None
+    integ = None
+    interval = None
+    nowvar = None
+    for i, n in enumerate(body):
+        if isinstance(n, ast.Assign) and len(n.targets) == 1:
+            t = ast.unparse(n.targets[0])
+            if t == f'{recv}._last_num_items':
+                pos['level'] = i
+                level_val = n.value
+            elif t == f'{recv}._last_level_change_time':
+                pos['stamp'] = i
+                pos['stamp_val'] = ast.unparse(n.value)
+            elif t == 'interval':
+                pos['interval'] = i
+                interval = n.value
+            elif t == 'now':
+                pos['now'] = i
+                nowvar = ast.unparse(n.value)
+        elif isinstance(n, ast.AugAssign) and ast.unparse(n.target) == f'{recv}._weighted_sum' and isinstance(n.op, ast.Add):
+            pos['integ'] = i
+            integ = n.value
+    k2 = f'{fi.key}::level=Σheld'
+    k3 = f'{fi.key}::integrate-previous-level'
+    if level_val is None:
+        r.fail('C18.R2', k2, f'no assignment to {recv}._last_num_items', src(fi.module), fi.node.lineno)
+    else:
+        try:
+            got = lin.norm(lin.linexpr(level_val, {}, recv))
+            want = lin.norm(sum_lin(holders, {}, {}))
+            if got == want:
+                r.ok('C18.R2', k2, f'= {lin.show(dict(want))}', src(fi.module), fi.node.lineno)
+            else:
+                r.fail('C18.R2', k2, f'records {lin.show(dict(got))} as the level, the store holds {lin.show(dict(want))}', src(fi.module), fi.node.lineno)
+        except lin.NonLinear as e:
+            r.fail('C18.R2', k2, f'recorded level is not a sum of the holding-list lengths ({e})', src(fi.module), fi.node.lineno)
+    why = None
+    if integ is None or interval is None:
+        why = 'no `_weighted_sum += level * interval` / `interval = now - last change` found'
+    else:
+        it = ast.unparse(integ).replace(' ', '')
+        if it not in (f'{recv}._last_num_items*interval', f'interval*{recv}._last_num_items'):
+            why = f'integrand is `{ast.unparse(integ)}`, expected previous level × interval'
+        iv = ast.unparse(interval).replace(' ', '')
+        if iv != f'now-{recv}._last_level_change_time':
+            why = f'interval is `{ast.unparse(interval)}`, expected now − last level change time'
+        if nowvar != now_expr:
+            why = f'`now` is `{nowvar}`, expected `{now_expr}`'
+        order = [pos.get('now', -1), pos.get('interval', -1), pos.get('integ', -1)]
+        if order != sorted(order) or -1 in order:
+            why = why or 'now / interval / integration are not computed in this order'
+        if 'level' in pos and pos['level'] < pos['integ']:
+            why = 'the level is refreshed before the integral is advanced (the new level is integrated over the past interval)'
+        if 'stamp' in pos and pos['stamp'] < pos['interval']:
+            why = 'the change stamp is refreshed before the interval is computed (interval is always 0)'
+        if 'stamp' not in pos or pos.get('stamp_val') != 'now':
+            why = why or 'the last-change stamp is not set to now'
+    if why:
+        r.fail('C18.R3', k3, why, src(fi.module), fi.node.lineno)
+    else:
+        r.ok('C18.R3', k3, 'now → interval → integral += previous level × interval → stamp, level', src(fi.module), fi.node.lineno)
+
+
+def check_cycle_time(p, nws, r):
+    for w in nws:
+        if w.ci.name != 'Sink':
+            continue
+        fi = w.root_funcs['behaviour']
+        key = f'{fi.key}::cycle-time'
+        bad = None
+        n = 0
+        for pa in w.roots['behaviour']:
+            if pa.raises:
+                continue
+            gets = [e for e in pa.events if e.kind == 'pcall' and e.name == 'get']
+            adds = [e for e in pa.events if e.kind == 'setitem' and 'total_cycle_time' in e.target]
+            if not gets and not adds:
+                continue
+            n += 1
+            if len(gets) != len(adds):
+                bad = (pa, f'{len(gets)} item(s) received but total_cycle_time updated {len(adds)} time(s)')
+                continue
+            for g, a in zip(gets, adds):
+                if not (a.aug and a.aug[0] == 'Add'):
+                    bad = (pa, 'total_cycle_time is overwritten, not accumulated')
+                    continue
+                node = a.d.get('node')
+                val = node.value if isinstance(node, ast.AugAssign) else None
+                okv = isinstance(val, ast.BinOp) and isinstance(val.op, ast.Sub) and ast.unparse(val.left).endswith('env.now') \
+                    and isinstance(val.right, ast.Attribute) and val.right.attr == 'timestamp_creation'
+                if not okv:
+                    bad = (pa, f'cycle time operand is `{ast.unparse(val) if val is not None else "?"}`, expected env.now − <item>.timestamp_creation')
+                    continue
+                # the item whose creation stamp is read is the item just received
+                holder = val.right.value
+                hv = None
+                if self_attr(holder):
+                    hv = pa.st.env.get('self.' + holder.attr)
+                # value at that time: find the setattr that stored the get result
+                stored = [e for e in pa.events if e.kind == 'setattr' and e.target == ast.unparse(holder) and e.value == g.result]
+                local = isinstance(holder, ast.Name)
+                if not stored and not local:
+                    bad = (pa, f'`{ast.unparse(holder)}` does not hold the item returned by the get of this iteration')
+        if n == 0:
+            r.fail('C18.R5', key, 'no reception path found in Sink.behaviour', src(fi.module), fi.node.lineno)
+        elif bad:
+            r.fail('C18.R5', key, bad[1], src(fi.module), fi.node.lineno, bad[0].describe())
+        else:
+            r.ok('C18.R5', key, 'once per received item, now − timestamp_creation of that item', src(fi.module), fi.node.lineno)
+
+
+def check_timestamps(p, r):
+    for fi in p.all_functions():
+        for n in walk_no_nested(fi.node):
+            if not isinstance(n, (ast.Assign, ast.AugAssign)):
+                continue
+            for t in (n.targets if isinstance(n, ast.Assign) else [n.target]):
+                if isinstance(t, ast.Attribute) and (t.attr.startswith(STAMP_ATTRS_PREFIX) or t.attr in STAMP_ATTRS):
+                    key = site(fi, n, f'stamp:{t.attr}', same=lambda x, a=t.attr: isinstance(x, (ast.Assign, ast.AugAssign)) and any(
+                        isinstance(tt, ast.Attribute) and tt.attr == a for tt in (x.targets if isinstance(x, ast.Assign) else [x.target])))
+                    v = n.value
+                    txt = ast.unparse(v)
+                    ok = isinstance(n, ast.Assign) and ((isinstance(v, ast.Attribute) and v.attr == 'now') or (isinstance(v, ast.Constant) and v.value is None))
+                    if ok:
+                        r.ok('C18.R6', key, f'= {txt}', src(fi.module), n.lineno)
+                    else:
+                        r.fail('C18.R6', key, f'timestamp `{ast.unparse(t)}` is assigned `{txt}`, not the simulation clock env.now', src(fi.module), n.lineno)
